@@ -107,6 +107,8 @@ func init() {
 			ruleReleaseEventsQueued(c, "C03.R4")
 			c.Rule("C03.R7", "reserve keeps the stored policy in store and memory alike", 3)
 			ruleCloneMatchesAssign(c, "C03.R7")
+			c.Rule("C03.R8", "the immutable-deployment count and its release/reserve decision run under the pool lock of the counted prefix", 20)
+			rulePoolLock(c, "C03.R8")
 			c.Rule("C03.R5", "stored policy is the pod's policy", 5)
 			ruleStoredPolicyIsPodPolicy(c, "C03.R5")
 			c.Rule("C03.R6", "unbind derives the policy from the pod", 3)
@@ -142,6 +144,10 @@ func init() {
 			ruleReleasers(c, "C02.R7", "cloud")
 			c.Rule("C02.R8", "filter / bind / preempt / pod-ip sync never release or reserve", 4)
 			ruleSchedulingNeverReleases(c, "C02.R8")
+			c.Rule("C02.R9", "a pod is judged gone only after asking the API server (fail-safe liveness test)", 4)
+			ruleLivenessFailSafe(c, "C02.R9")
+			c.Rule("C02.R10", "release events are queued only for pods that are gone or finished", 4)
+			ruleReleaseEventsQueued(c, "C02.R10")
 			c.Rule("C02.R6", "a failed re-key of the reserved ip is returned, never replaced by a fresh allocation", 5)
 			ruleFilterAllocErrors(c, "C02.R6")
 		}})
